@@ -4,6 +4,7 @@ import (
 	"fmt"
 	"go/token"
 	"go/types"
+	"sort"
 	"strings"
 
 	"golang.org/x/tools/go/ssa"
@@ -51,13 +52,14 @@ func (ti timerImpl) ownEntry(v ssa.Value) bool {
 }
 
 func C17(c *Ctx) {
-	c.R.Explanation = "Decides structural necessary conditions of 'timers fire at most once, never early, never after cancel; ids are reusable' for both timer implementations (cmd/mcrew and sio): (R1) the timers map is accessed only with the timers mutex held (must-held lockset over a frozen guarded-by table), and the crew change cache of sio only with the crew mutex; (R2) the emit call of a timer goroutine is in no loop, and every goroutine start is bound to one entry (in particular a loop that re-arms stored timers starts each goroutine with that iteration's entry); (R3) the only way to the emit is the receive from a timer created from 'At - now' where At was stored as now + d; (R4) between that receive and the emit, under the mutex, the map is looked up, the result is compared for identity with the goroutine's own entry, the entry is deleted on the identity edge, and the emit is reachable only on that edge; (R5) after the emit the goroutine no longer touches the map; (R6) cancel deletes the entry and closes its channel under the mutex; the sio emitter hands the message to the crew by an unconditional send. Real schedules and timing are not decided."
+	c.R.Explanation = "Decides structural necessary conditions of 'timers fire at most once, never early, never after cancel; ids are reusable' for both timer implementations (cmd/mcrew and sio): (R1) the timers map is accessed only with the timers mutex held (must-held lockset over a frozen guarded-by table), and the crew change cache of sio only with the crew mutex; (R2) the emit call of a timer goroutine is in no loop, and every goroutine start is bound to one entry (in particular a loop that re-arms stored timers starts each goroutine with that iteration's entry); (R3) the only way to the emit is the receive from a timer created from 'At - now' where At was stored as now + d; (R4) between that receive and the emit, under the mutex, the map is looked up, the result is compared for identity with the goroutine's own entry, the entry is deleted on the identity edge, and the emit is reachable only on that edge; (R5) after the emit the goroutine no longer touches the map; (R6) cancel deletes the entry and closes its channel under the mutex; the sio emitter hands the message to the crew by an unconditional send; (R7) in every function that can be stored as a timers emitter, the sites that hand the message on (channel sends, calls that reach core Walk or a send) are in no loop and none is reachable from another, so one firing presents the message at most once. Real schedules and timing are not decided."
 	c.R.Rule("C17-R1", "E4", "lockset: timers map under the timers mutex; change cache under the crew mutex", 12)
 	c.R.Rule("C17-R2", "E3+E7", "one shot: emit in no loop; one goroutine per entry", 4)
 	c.R.Rule("C17-R3", "E5", "never early", 2)
 	c.R.Rule("C17-R4", "E3", "revalidate by identity and release under the lock before firing", 4)
 	c.R.Rule("C17-R5", "E3", "no bookkeeping after the emit", 2)
 	c.R.Rule("C17-R6", "E3", "cancel and delivery", 3)
+	c.R.Rule("C17-R7", "E3", "every installed emitter delivers the message at most once", 3)
 	impls := []timerImpl{
 		{"mcrew", "cmd/mcrew", "Timers", "timers", "emit", "TimerEntry", "At", "cmd/mcrew.Timers.Mutex"},
 		{"sio", "sio", "Timers", "Map", "Emitter", "TimerEntry", "At", "sio.Timers.Mutex"},
@@ -438,7 +440,111 @@ func C17(c *Ctx) {
 			}
 		}
 	}
+	c17Emitters(c, impls)
 	_ = types.Typ
+}
+
+// c17Emitters: C17-R7.  Every function that can be installed as a timers
+// emitter hands the message over at most once on every path: its delivery
+// sites (channel sends, and calls whose in-repository closure reaches core
+// Walk or a channel send) are in no loop and no delivery site is reachable from
+// another.
+func c17Emitters(c *Ctx, impls []timerImpl) {
+	walk := c.P.Func("core", "Spec", "Walk")
+	delivers := map[*ssa.Function]bool{}
+	deliversFn := func(f *ssa.Function) bool {
+		if v, ok := delivers[f]; ok {
+			return v
+		}
+		res := false
+		for _, g := range pkgClosure(f) {
+			if g == walk {
+				res = true
+			}
+			if g.Parent() != nil {
+				continue // a literal only defined there; it runs when called
+			}
+			ssau.Instrs(g, func(in ssa.Instruction) {
+				if _, isSend := in.(*ssa.Send); isSend {
+					res = true
+				}
+			})
+		}
+		delivers[f] = res
+		return res
+	}
+	for _, ti := range impls {
+		fns := c.P.FuncsIn(ti.pkg)
+		var all []*ssa.Function
+		for _, f := range fns {
+			all = append(all, ssau.WithAnon(f)...)
+		}
+		// function values stored into the emit field
+		emitters := map[*ssa.Function]bool{}
+		for _, f := range all {
+			for _, st := range storesToPkg(f, ti.pkg, ti.timersT, ti.emitField) {
+				for _, d := range deepDefs(st.Val, all) {
+					switch x := d.(type) {
+					case *ssa.MakeClosure:
+						emitters[x.Fn.(*ssa.Function)] = true
+					case *ssa.Function:
+						emitters[x] = true
+					}
+				}
+			}
+		}
+		var ems []*ssa.Function
+		for f := range emitters {
+			ems = append(ems, f)
+		}
+		sort.Slice(ems, func(i, j int) bool { return fname(ems[i]) < fname(ems[j]) })
+		if len(ems) == 0 {
+			c.R.Break("C17-R7: %s: no function is installed as the timers emitter", ti.name)
+			continue
+		}
+		for _, em := range ems {
+			c.R.Fn(fname(em))
+			var sites []ssa.Instruction
+			ssau.Instrs(em, func(in ssa.Instruction) {
+				switch x := in.(type) {
+				case *ssa.Send:
+					sites = append(sites, in)
+				case *ssa.Select:
+					for _, stt := range x.States {
+						if stt.Dir == types.SendOnly {
+							sites = append(sites, in)
+							break
+						}
+					}
+				case ssa.CallInstruction:
+					if _, isGo := in.(*ssa.Go); isGo {
+						if sc := x.Common().StaticCallee(); sc != nil && deliversFn(sc) {
+							sites = append(sites, in)
+						}
+						return
+					}
+					if sc := x.Common().StaticCallee(); sc != nil && sc.Blocks != nil && deliversFn(sc) {
+						sites = append(sites, in)
+					}
+				}
+			})
+			ok, why := len(sites) > 0, "the emitter never hands the message to anyone"
+			for i, a := range sites {
+				if flow.InCycle(a.Block()) {
+					ok, why = false, "a delivery ("+c.pos(a)+") is inside a loop"
+				}
+				for j, b := range sites {
+					if i == j {
+						continue
+					}
+					if a.Block() == b.Block() || flow.Reachable(a.Block(), b.Block(), nil) {
+						ok, why = false, "after the delivery at "+c.pos(a)+" the message can be delivered again at "+c.pos(b)
+					}
+				}
+			}
+			c.R.Check(ok, "C17-R7", ti.name+": emitter "+fname(em)+" delivers at most once", c.P.Pos(em.Pos()), fmt.Sprintf("%d delivery site(s), none in a loop, none reachable from another", len(sites)), why)
+		}
+	}
 }
 
 // storesToPkg: stores to pkg.typ.field in fn.
